@@ -292,7 +292,14 @@ def run(ctx, br):
     mism = [i for i, v in enumerate(verdicts) if v < 0]
     for i in mism:
         c, r = live[i]
-        if not oracle(c, r):
+        if not oracle(c, r) and verdicts[i] in (-2, -3):
+            # the model's verdict IS the specification (theorem c18_fails_iff_breaking): a different verdict of
+            # the real auditor on this pair is a concrete failing input
+            what = ("the auditor PASSES a pair with a breaking change (Breaking holds by c18_fails_iff_breaking)"
+                    if verdicts[i] == -2 else
+                    "the auditor FAILS a pair without any breaking change (Breaking does not hold)")
+            ctx.violation("C18: " + what, replay_of(c, r, {"decided_by": "model verdict + theorem c18_fails_iff_breaking"}))
+        elif not oracle(c, r):
             ctx.violation("C18 correspondence: Model/Audit.v does not reproduce the auditor's diagnostics on this pair",
                           replay_of(c, r, {"no_failing_input_found": True,
                                            "broken": "correspondence JAudit.judge (model Model/Audit.v, theorems c18_*)"}))
